@@ -144,8 +144,8 @@ theorem readTlvLoop_present (bs : Bytes) : ∀ (fuel : Nat) (r : Reader) (m : Tl
       · rename_i he1
         obtain ⟨hhd, hr1, hlen4⟩ := h1 he1
         generalize hlen : fromBe (hd.drop 2) = len
-        have h2 := readBytes_ok { r1 with alloc := r1.alloc + len } len (by simpa using he1)
-        generalize Reader.readBytes { r1 with alloc := r1.alloc + len } len = p2 at h2
+        have h2 := readBytes_ok { r1 with alloc := r1.alloc + min len (r1.remaining + 1) } len (by simpa using he1)
+        generalize Reader.readBytes { r1 with alloc := r1.alloc + min len (r1.remaining + 1) } len = p2 at h2
         obtain ⟨v, r2⟩ := p2
         simp only at h2 ⊢
         split
